@@ -123,6 +123,12 @@ CHECKS = {
             "Default is LE and BigEndian BE for all ten integral pairs; two-byte tag pages {1F, FF} agree between writer, reader and spec; "
             "the FFFF receipt sentinel is routed to the same codec on both sides; hex/CP437 use inverse primitives.",
             "Value-level round trips per value are not decided. " + TB),
+    "C11": ("other", "5.11",
+            "expression-provenance rules on the manifest and answer construction, constant-table distinctness, protocol monitor on the upload sequence",
+            "The announced list has one entry per existing recognised file (id and path from one table row, size = seek(End(0)) of that file); "
+            "every data request is answered with the requested id and offset and buf[..read_at(file_of(id), buf, offset)] with the configured "
+            "block size; the five refusal points end the upload with one error and no write; the raw payload codec is the identity.",
+            "Bit-identity with the disk content, short reads and the id table vs Feig's manual are not decided. " + TB),
 }
 
 NOT_YET = "check not yet built in this commit (under construction, see DESIGN.md section 10)"
